@@ -2,6 +2,7 @@
 # (rt.N(quick, thorough) per sub-check, per shard); this table only says how
 # to build and shard.
 CHECKS = {
+    "C13": dict(pkg="./c13", shards=4, build_main=True),
     "C17": dict(pkg="./c17", shards=16),
     "C19": dict(overlay_pkg="config", overlay_files=["c19/c19_overlay_test.go"], shards=16, run_filter="^TestC19"),
     "C14": dict(pkg="./c14", shards=16, fuzz=[dict(pkg="./c14", target="FuzzC14HTTP", seconds=90), dict(pkg="./c14", target="FuzzC14ReadName", seconds=60), dict(pkg="./c14", target="FuzzC14Header", seconds=90)]),
